@@ -683,7 +683,8 @@ def _th_fields(th):
 def case_observer(props, t, mode, turn=None, over=False):
     """mode: 'known' (observer is not dummy and has been shown dummy's cards) | 'opening' (trick 1, nothing played, dummy
     not yet disclosed; the protocol discloses it right after this play) | 'is_dummy' (the observer sits in dummy's seat:
-    the bundled client never sets a dummy hand there)"""
+    the bundled client never sets a dummy hand there) | 'is_dummy_alias' (observer in dummy's seat and set_dummy_hand was
+    given the SAME set object as its own hand) | 'is_dummy_copy' (... an equal but separate set)"""
     from bridge_env import ObservedPlayingPhase, Player, PlayingPhaseWithHands
     dummy_known = mode == 'known'
 
@@ -700,8 +701,11 @@ def case_observer(props, t, mode, turn=None, over=False):
             eng.assume(st['A'] == turn)          # splits the work; the case list covers all four seats
         if mode == 'opening':
             eng.assume(z3.And(st['T'] == 1, obs != (st['dcl'] + 1) % 4 + 1))   # t == 0 by construction of the case list
-        elif mode == 'is_dummy':
+        elif mode in ('is_dummy', 'is_dummy_alias', 'is_dummy_copy'):
             eng.assume(obs == (st['dcl'] + 1) % 4 + 1)
+            if mode != 'is_dummy':
+                own = O.attrs['_hand']
+                eng.call_function(ObservedPlayingPhase.set_dummy_hand, [O, own if mode == 'is_dummy_alias' else own.copy()], {})
         else:
             eng.assume(obs != (st['dcl'] + 1) % 4 + 1)
         cr, cs_, seat = z3.Int('card_rank'), z3.Int('card_suit'), z3.Int('seat')
@@ -749,7 +753,7 @@ def case_observer(props, t, mode, turn=None, over=False):
             same = [preO['L'] == postO['L'], preO['A'] == postO['A'], preO['T'] == postO['T'], z3.BoolVal(postO['t'] == t),
                     preO['ns'] == postO['ns'], preO['ew'] == postO['ew'], postO['base'] == preO['base'],
                     bits_eq(preO['hand'], postO['hand']), bits_eq(preO['used'], postO['used'])]
-            if dummy_known:
+            if dummy_known or mode in ('is_dummy_alias', 'is_dummy_copy'):
                 same.append(bits_eq(preO['dummy_hand'], postO['dummy_hand']) if postO['dummy_hand'] is not None else z3.BoolVal(False))
             else:
                 same.append(z3.BoolVal(postO['dummy_hand'] is None))
@@ -786,6 +790,8 @@ def case_observer(props, t, mode, turn=None, over=False):
         dh = postO['dummy_hand']
         if mode == 'is_dummy':
             add({'C11', 'C05'}, 'an observer in dummy\'s seat keeps no separate dummy hand', z3.BoolVal(dh is None))
+        elif mode == 'is_dummy_copy':
+            pass        # a separate copy handed to an observer that IS dummy: no claim about that copy (own hand is checked above)
         else:
             add({'C11', 'C05'}, 'observer\'s view of dummy = dummy\'s hand in the full game',
                 bits_eq(dh, _pick(dummy, postF['hands'])) if dh is not None else z3.BoolVal(False))
